@@ -34,6 +34,8 @@ fn bounds(tier: Tier) -> Vec<(Fam, u8, Vec<RCfg>, usize, usize)> {
             (Fam::Map, 1, vec![rc(1, true), rc(2, true)], 3, 1),
             (Fam::Rtx, 0, vec![cu(1, true, true), cu(2, true, false)], 3, 0),
             (Fam::Nest, 0, vec![rc(1, true), rc(2, true)], 3, 1),
+            // three clients: a block of a higher client anchored inside a gap the receiver holds for a lower one
+            (Fam::Map, 1, vec![rc(2, true), rc(1, true), rc(3, true)], 3, 1),
         ],
         Tier::Thorough => vec![
             (Fam::Txt, 0, vec![rc(1, true), rc(2, true)], 4, 2),
@@ -44,6 +46,8 @@ fn bounds(tier: Tier) -> Vec<(Fam, u8, Vec<RCfg>, usize, usize)> {
             (Fam::Nest, 0, vec![rc(1, true), rc(2, false)], 3, 1),
             (Fam::Arr, 1, vec![rc(1, true), rc(2, true)], 3, 1),
             (Fam::Xml, 0, vec![rc(1, true), rc(2, true)], 3, 1),
+            // three clients: a block of a higher client anchored inside a gap the receiver holds for a lower one
+            (Fam::Map, 1, vec![rc(2, true), rc(1, true), rc(3, true)], 3, 1),
         ],
     }
 }
@@ -207,6 +211,36 @@ fn one_exchange(
         );
         return;
     }
+    // completeness of content: B now knows what A and B knew; if that set of operations is causally
+    // closed and nothing is stashed, B must show exactly what a replica shows that received those
+    // operations one by one in emission order
+    let union: BTreeSet<usize> = ra.known.union(&rb.known).copied().collect();
+    // (a sender that only has some of its knowledge stashed does not pass that part on with encode_diff)
+    let reference: Option<Model> = if !ra.pending() && closed(&w.pool, mask_of(&union)) {
+        let fresh = Replica::new(RCfg { client: 900, gc: rb.cfg.gc, utf16: rb.cfg.utf16, cleanup: false });
+        let mut ok = true;
+        for i in &union {
+            ok &= fresh.apply(&w.pool[*i].v1, false).is_ok();
+        }
+        if ok && !fresh.pending() {
+            Some(fresh.dump())
+        } else {
+            None
+        }
+    } else {
+        None
+    };
+    if let Some(want) = &reference {
+        if !rb.pending() && stale_sv.is_none() && &rb.dump() != want {
+            ctx.violation(
+                "sync",
+                "content-incomplete-after-sync",
+                format!("B applied A's answer and reports nothing missing, but shows {} where the operations known to A and B give {}", show_model(&rb.dump()), show_model(want)),
+                cj(),
+            );
+            return;
+        }
+    }
     // idempotence: the same payload again changes nothing
     let (d1, h1) = (rb.dump(), rb.store_hash());
     if let Err(e) = rb.apply(&payload, v2) {
@@ -276,6 +310,16 @@ fn one_exchange(
             ),
             cj(),
         );
+    }
+    if let Some(want) = &reference {
+        if !ra.pending() && !rb.pending() && &rb.dump() != want {
+            ctx.violation(
+                "sync",
+                "content-incomplete-after-exchange",
+                format!("after exchanging until nothing changes both show {} where the operations known to A and B give {}", show_model(&rb.dump()), show_model(want)),
+                cj(),
+            );
+        }
     }
     let _ = Update::decode_v1(&[0, 0]);
     let _: Option<Model> = None;
